@@ -338,7 +338,7 @@ package mapping
 //@   let isStringer = typeis(value, string) || calls(String) == 1
 //@   ensures [string-through-checked-store] typeis(value, string) && calls(String) == 0 ==> calls(setValue) == 1 && arg(setValue, 0) == baseKind && arg(setValue, 2) == unbox(value, string) && result == ret(setValue)
 //@   ensures [kind-mismatch-is-an-error] calls(setValue) == 0 && calls(fillMap) == 0 && result != nil ==> result == errTypeMismatch && calls(Set) == 0
-//@   ensures [stored-only-with-matching-kind] calls(Set) >= 1 ==> result == nil && calls(setValue) == 0
+//@   ensures [stored-only-with-matching-kind] calls(Set) >= 1 ==> result == nil && calls(setValue) == 0 && calls(Kind) == 3 && ret(Kind, 0, 2) == ret(Kind, 0, 3)
 // processFieldStruct: the nested struct is filled from the given valuer under the same full name; a pointer field
 // is allocated, filled and only then attached (an error leaves the field untouched).
 //@ func (*Unmarshaler).processFieldStruct
